@@ -37,6 +37,9 @@ class DescModel:
                         self.key_bodies.setdefault(b.id, set()).add(rv['variant'])
                     elif rv['adt'] == self.V:
                         self.val_built.setdefault(b.id, set()).add(rv['variant'])
+                # unit variants may appear as constants instead of aggregates
+                for op in _rv_operands(rv):
+                    self._const_variant(b, op)
                 # payload extraction: a use of ((_x as VARIANT).k) with _x : V
                 for op in _rv_operands(rv):
                     opl = op_place(op)
@@ -45,6 +48,31 @@ class DescModel:
                     self._downcasts(b, opl)
                 if rv['k'] in ('ref', 'copy_for_deref'):
                     self._downcasts(b, rv['pl'])
+            for c in b.live_calls:
+                for a in c.args:
+                    self._const_variant(b, a)
+
+    def _const_variant(self, b, op, depth=0):
+        if isinstance(op, dict) and op.get('k') == 'const' and 'promoted' in op and 'uneval_uid' in op and depth == 0:
+            pb = b.facts.promoted.get('%s::promoted[%d]' % (op['uneval_uid'], op['promoted']))
+            if pb is not None:
+                for bb in range(pb.n):
+                    for st in pb.blocks[bb]['stmts']:
+                        if st['k'] != 'assign':
+                            continue
+                        rv = st['rv']
+                        if rv['k'] == 'agg' and rv['agg'] == 'adt' and rv['adt'] == self.K:
+                            self.key_bodies.setdefault(b.id, set()).add(rv['variant'])
+                        for o2 in _rv_operands(rv):
+                            self._const_variant(b, o2, 1)
+            return
+        if isinstance(op, dict) and op.get('k') == 'const':
+            ty = op.get('ty', '')
+            m = re.search(r'::(\w+)$', op.get('s', ''))
+            if m and ty == self.K:
+                self.key_bodies.setdefault(b.id, set()).add(m.group(1))
+            elif m and ty == self.V:
+                self.val_built.setdefault(b.id, set()).add(m.group(1))
 
     def _downcasts(self, b, pl):
         ty = b.locals[pl['l']]['ty']
@@ -169,8 +197,9 @@ def _absent_region(prog, dm, b):
             if len(defs) == 1 and defs[0][2] == 'assign' and defs[0][3]['k'] == 'discr':
                 ty = defs[0][3]['pl']['ty']
                 if ty.startswith('std::option::Option<') and dm.V in ty:
+                    listed = {v for v, _ in t['targets']}
                     for v, tb in switch_edges(b, bb):
-                        if v == 0:
+                        if v == 0 or (v == 'otherwise' and 0 not in listed):
                             out = (out or set()) | b.reachable_from(tb)
     return out
 
@@ -315,7 +344,7 @@ def _classify_arg(prog, d, op):
                 src = m.data.args[0]
                 it = single_origin(trace_operand(d, src, through_calls=set()))
                 hops = 0
-                while it is not None and it.kind == 'callres' and it.data.callee in ('std::iter::IntoIterator::into_iter', 'std::slice::<impl [T]>::iter') and hops < 3:
+                while it is not None and it.kind == 'callres' and re.search(r'(::into_iter|<impl \[T\]>::iter|Vec::<T, A>::iter)$', it.data.callee or '') and hops < 3:
                     nxt = single_origin(trace_operand(d, it.data.args[0], through_calls=set(TRANSPARENT_CALLS)))
                     if nxt is not None and nxt.kind == 'param':
                         it = nxt
